@@ -4,10 +4,13 @@ package c10
 import (
 	"bytes"
 	"context"
+	"encoding/gob"
 	"fmt"
+	"github.com/itchio/savior"
 	"io"
 	"os"
 	"path/filepath"
+	"reflect"
 	"sync"
 	"testing"
 	"time"
@@ -434,8 +437,47 @@ type dryPool struct{ c *tlc.Container }
 
 // run feeds stream to a target. It returns the error the target returned (nil
 // is fine: "return an error or complete").
-func runTarget(target string, e *corpusEntry, stream []byte) error {
+func runTarget(target string, e *corpusEntry, stream []byte, cks ...[]byte) error {
 	switch target {
+	case "apply-resume":
+		// the applier entered through its other door: Resume from a checkpoint that an application of the
+		// INTACT stream (same framing) handed out, in a brand-new patcher over the malformed stream
+		var first error
+		for _, ckb := range cks {
+			ck := &patcher.Checkpoint{}
+			if err := gob.NewDecoder(bytes.NewReader(ckb)).Decode(ck); err != nil {
+				continue
+			}
+			// only checkpoints this stream could have produced: what they resume from must still be there (a
+			// file that lost its tail after the checkpoint was taken). A checkpoint pointing beyond the end of
+			// the stream belongs to another stream; that is not what the property quantifies over.
+			// (offsets are relative to the section behind magic and header: 64 bytes of margin cover those)
+			if ck.MessageCheckpoint == nil || rawResumeOffset(ck.MessageCheckpoint.SourceCheckpoint)+64 > int64(len(stream)) {
+				continue
+			}
+			err := func() error {
+				p, err := patcher.New(h.Source(stream), h.Quiet())
+				if err != nil {
+					return err
+				}
+				tp := fspool.New(p.GetTargetContainer(), e.oldDir)
+				out := h.TempDir("c10res")
+				defer os.RemoveAll(out)
+				b, err := bowl.NewFreshBowl(bowl.FreshBowlParams{SourceContainer: p.GetSourceContainer(), TargetContainer: p.GetTargetContainer(), TargetPool: tp, OutputFolder: out})
+				if err != nil {
+					return err
+				}
+				defer b.Close()
+				if err := p.Resume(ck, tp, b); err != nil {
+					return err
+				}
+				return b.Commit()
+			}()
+			if first == nil {
+				first = err
+			}
+		}
+		return first
 	case "apply-fresh", "apply-dry":
 		p, err := patcher.New(h.Source(stream), h.Quiet())
 		if err != nil {
@@ -522,7 +564,7 @@ func streamFor(e *corpusEntry, target string, optimized bool) (kind string, stre
 	return "patch", e.plain
 }
 
-var targets = []string{"apply-fresh", "apply-dry", "optimize", "signature", "overlay"}
+var targets = []string{"apply-fresh", "apply-dry", "apply-resume", "optimize", "signature", "overlay"}
 
 // ---------------------------------------------------------------------------
 // generator (2): structured mutation
@@ -557,10 +599,25 @@ func check(s Spec) h.Result {
 	if err != nil {
 		return h.Result{Skip: "cannot re-frame: " + err.Error()}
 	}
+	var cks [][]byte
+	if s.Target == "apply-resume" && len(s.Muts) > 0 {
+		return h.Result{Skip: "the resume target is only fed truncated streams (a resumed reader is only aligned if nothing before it moved)"}
+	}
+	if s.Target == "apply-resume" {
+		intact, err := ml.encode(kind, s.Comp, ml.msgs)
+		if err != nil {
+			return h.Result{Skip: "cannot re-frame: " + err.Error()}
+		}
+		cks = checkpointsOf(fmt.Sprintf("%d/%v/%v", s.Corpus%len(cs), s.Optimized, s.Comp), e, intact)
+		if len(cks) == 0 {
+			return h.Result{Skip: "the intact stream offers no checkpoint under this framing"}
+		}
+		cl = append(cl, "resume:from-a-checkpoint-of-the-intact-stream")
+	}
 	if s.TruncAll {
 		ps := prefixes(stream)
 		for _, l := range ps {
-			if perr := runGuarded(s.Target, e, stream[:l]); perr != "" {
+			if perr := runGuarded(s.Target, e, stream[:l], cks...); perr != "" {
 				return h.Result{Fail: fmt.Sprintf("%s stream truncated to %d of %d bytes: %s", kind, l, len(stream), perr), Classes: cl}
 			}
 		}
@@ -586,7 +643,7 @@ func check(s Spec) h.Result {
 	if s.Comp.Algo != 0 {
 		cl = append(cl, "framing:compressed")
 	}
-	if perr := runGuarded(s.Target, e, stream); perr != "" {
+	if perr := runGuarded(s.Target, e, stream, cks...); perr != "" {
 		return h.Result{Fail: perr, Classes: cl}
 	}
 	return h.Result{Classes: cl, NonTrivial: nt}
@@ -651,14 +708,112 @@ func prefixes(stream []byte) []int {
 
 // runGuarded converts a panic on this goroutine into a message (the runner's
 // watchdog handles hangs, the journal handles panics in wharf's goroutines).
-func runGuarded(target string, e *corpusEntry, stream []byte) (msg string) {
+func runGuarded(target string, e *corpusEntry, stream []byte, cks ...[]byte) (msg string) {
 	defer func() {
 		if r := recover(); r != nil {
 			msg = fmt.Sprintf("target %s panicked: %v\n%s", target, r, h.TrimStack())
 		}
 	}()
-	runTarget(target, e, stream)
+	runTarget(target, e, stream, cks...)
 	return ""
+}
+
+var (
+	ckMu    sync.Mutex
+	ckCache = map[string][][]byte{}
+)
+
+// rawResumeOffset finds the innermost source checkpoint (the one of the byte source under the decompressor):
+// its offset is where resuming will seek to in the raw stream.
+func rawResumeOffset(sc *savior.SourceCheckpoint) int64 {
+	for depth := 0; sc != nil && depth < 8; depth++ {
+		if sc.Data == nil {
+			return sc.Offset
+		}
+		v := reflect.ValueOf(sc.Data)
+		for v.Kind() == reflect.Ptr || v.Kind() == reflect.Interface {
+			if v.IsNil() {
+				return sc.Offset
+			}
+			v = v.Elem()
+		}
+		if v.Kind() != reflect.Struct {
+			return sc.Offset
+		}
+		var next *savior.SourceCheckpoint
+		for i := 0; i < v.NumField(); i++ {
+			if c, ok := v.Field(i).Interface().(*savior.SourceCheckpoint); ok && c != nil {
+				next = c
+			}
+		}
+		if next == nil {
+			return sc.Offset
+		}
+		sc = next
+	}
+	return 0
+}
+
+// checkpointsOf applies the intact stream with an always-saving consumer and keeps two of the checkpoints it is
+// handed (gob-encoded): the one whose source checkpoint lags its message offset most, and the last one.
+func checkpointsOf(key string, e *corpusEntry, intact []byte) [][]byte {
+	ckMu.Lock()
+	defer ckMu.Unlock()
+	if c, ok := ckCache[key]; ok {
+		return c
+	}
+	var all [][]byte
+	var gaps []int64
+	func() {
+		defer func() { recover() }()
+		p, err := patcher.New(h.Source(intact), h.Quiet())
+		if err != nil {
+			return
+		}
+		p.SetSaveConsumer(&ckSaver{save: func(c *patcher.Checkpoint) {
+			b := new(bytes.Buffer)
+			if gob.NewEncoder(b).Encode(c) == nil {
+				all = append(all, b.Bytes())
+				g := int64(0)
+				if c.MessageCheckpoint != nil && c.MessageCheckpoint.SourceCheckpoint != nil {
+					g = c.MessageCheckpoint.Offset - c.MessageCheckpoint.SourceCheckpoint.Offset
+				}
+				gaps = append(gaps, g)
+			}
+		}})
+		tp := fspool.New(p.GetTargetContainer(), e.oldDir)
+		out := h.TempDir("c10ck")
+		defer os.RemoveAll(out)
+		b, err := bowl.NewFreshBowl(bowl.FreshBowlParams{SourceContainer: p.GetSourceContainer(), TargetContainer: p.GetTargetContainer(), TargetPool: tp, OutputFolder: out})
+		if err != nil {
+			return
+		}
+		defer b.Close()
+		p.Resume(nil, tp, b)
+	}()
+	var keep [][]byte
+	if len(all) > 0 {
+		best := 0
+		for i, g := range gaps {
+			if g > gaps[best] {
+				best = i
+			}
+		}
+		keep = append(keep, all[best])
+		if best != len(all)-1 {
+			keep = append(keep, all[len(all)-1])
+		}
+	}
+	ckCache[key] = keep
+	return keep
+}
+
+type ckSaver struct{ save func(*patcher.Checkpoint) }
+
+func (s *ckSaver) ShouldSave() bool { return true }
+func (s *ckSaver) Save(c *patcher.Checkpoint) (patcher.AfterSaveAction, error) {
+	s.save(c)
+	return patcher.AfterSaveContinue, nil
 }
 
 func hostile(t *rapid.T, e *corpusEntry, label string) int64 {
@@ -715,6 +870,13 @@ var prop = h.Prop[Spec]{
 			case 4:
 				s.Comp = h.Comp{Algo: 1, Q: 1}
 			}
+		}
+		if s.Target == "apply-resume" {
+			// resuming in the middle of a stream whose messages were dropped, duplicated or resized lands between
+			// message boundaries, where arbitrary bytes read as a length prefix: outside the stated precondition
+			// ("no single message declares a length beyond the stream"). This target only gets truncations.
+			s.TruncAt = rapid.IntRange(1, 1<<20).Draw(t, "trunc-at")
+			return s
 		}
 		n := rapid.IntRange(1, 3).Draw(t, "nmutations")
 		for i := 0; i < n; i++ {
